@@ -36,7 +36,7 @@ MODULE = "TriompheModel.Props.C17"
 BATCH = 250      # query lines per harness process (bounds the allocator's record table)
 
 ASSUME = [
-    "payload universe of the correspondence = the harness's family (u8, u64, i32, bool, (), String, (u32,String), Vec<u16>, Option<u8>, a nested struct with hand-written impls); the theorems are for arbitrary payloads",
+    "payload universe of the correspondence = the harness's family (u8, u64, i32, bool, (), a zero-sized unit struct with hand-written impls, [u8; 0], String, (u32,String), Vec<u16>, Option<u8>, a nested struct with hand-written impls); the theorems are for arbitrary payloads",
     "serializer/deserializer universe of the correspondence = one recording serializer implementing every serde::Serializer method and one replaying deserializer, both failing at a chosen k-th callback; the theorems are for arbitrary serializer states",
     "Part 2 of Model/Serde.lean (the call sequences serde 1.0's own impls for std types make) is a model of serde, not of triomphe; it is validated by the same correspondence (T's own log must match it)",
     "an Arc block is recognised by its layout Layout(usize).extend(Layout(T)).pad_to_align() (repr(C) ArcInner), the handle's block by heap_ptr()",
@@ -61,7 +61,7 @@ def fixed_payloads():
     ps += [["u8", str(v)] for v in (0, 7, 255)]
     ps += [["u64", str(v)] for v in (0, 1, 2 ** 63, 2 ** 64 - 1)]
     ps += [["i32", str(v)] for v in (-2 ** 31, -1, 0, 5, 2 ** 31 - 1)]
-    ps += [["bool", "true"], ["bool", "false"], ["unit"]]
+    ps += [["bool", "true"], ["bool", "false"], ["unit"], ["marker"], ["arr0"]]
     ps += [["str", "=" + w] for w in WORDS[:4]]
     ps += [["pair", "0", "="], ["pair", "4294967295", "=xyz"], ["pair", "7", "=ab"]]
     ps += [["seq", str(len(x))] + [str(i) for i in x] for x in ([], [1], [1, 2, 3], [65535, 0, 9, 8, 7, 6, 5, 4])]
@@ -211,8 +211,14 @@ def run_lines(binpath, drv, lines):
     def one(b):
         rc, out, err = common.sh2([binpath], stdin="".join(l + "\n" for l in b), timeout=300)
         o = out.split("\n")[:-1] if out.endswith("\n") else out.split("\n")
+        if rc == 5:
+            raise RuntimeError("serdecorr: allocation record table full: %s" % err[-300:])
         if rc != 0 or len(o) != len(b):
-            raise RuntimeError("serdecorr failed rc=%d (%d answers for %d queries): %s %s" % (rc, len(o), len(b), out[-400:], err[-800:]))
+            if len(b) == 1:
+                # the process running the REAL impls died on this query (double free, abort, ...): an observation
+                return ["CRASH status=%s stderr=%s" % (rc, " ".join(err.strip().split())[-200:].replace("(", "[").replace(")", "]"))]
+            # isolate the queries that kill the process
+            return [x for q in b for x in one([q])]
         return o
     with ThreadPoolExecutor(max_workers=min(8, max(1, len(batches)))) as ex:
         impl = [l for b in ex.map(one, batches) for l in b]
@@ -228,6 +234,11 @@ def evaluate(lines, impl, model):
     for q, i, m in zip(lines, impl, model):
         mode = q.split(" ", 1)[0]
         pi, pm = parse(i), parse(m)
+        if i.startswith("CRASH") and pm is not None:
+            res.append({"q": q, "mode": mode, "impl": i, "model": m, "pi": pm, "pm": pm, "disagree": [],
+                        "monitor": ["the process running the real serde impls died on this query (%s): memory was corrupted (double drop / free of a live value) "
+                                    "or it aborted" % i[6:]]})
+            continue
         if pi is None or pm is None:
             raise RuntimeError("unparsable answer for `%s`: impl `%s` model `%s`" % (q, i[:300], m[:300]))
         res.append({"q": q, "mode": mode, "impl": i, "model": m, "pi": pi, "pm": pm,
